@@ -80,6 +80,11 @@ def _c10(run, drv, rng, tier):
     props_c10.check(run, drv, rng, tier)
 
 
+def _c15(run, drv, rng, tier):
+    from . import props_c15
+    props_c15.check(run, drv, rng, tier)
+
+
 def _c17(run, drv, rng, tier):
     from . import props_c17
     props_c17.check(run, drv, rng, tier)
@@ -352,6 +357,19 @@ PROPS = {
                 "variants; one violating statement inserted at a random boundary of a random file (57 kinds); positions of all "
                 "definitions and references in-process; -c exit status; see tools/props_c20.NOTES.md; distinct by case tuple",
         "assumptions": FRONT_ASSUME + ["snake_case (regular-expression cascade) is not modelled: the field-name rule is tied by correspondence only"],
+    },
+    "C15": {
+        "modules": ["BpModel.Props.C15"],
+        "theorems": ["Bp.C15.C15_toplevel", "Bp.C15.C15_nested_py", "Bp.C15.C15_nested_c", "Bp.C15.C15_prefix", "Bp.C15.C15_constant",
+                     "Bp.C15.C15_constant_fixed"],
+        "explore": _c15,
+        "correspondence": "names declared by the generated C / Go / Python text, nm symbols, module attributes, written file names vs the documented "
+                          "scheme; real case converters and formatters vs Names.pascalCase / upperCase / pyIsUpper / defName (native driver)",
+        "rule": "multi-file programs renamed from a style-guide word pool (PascalCase incl. acronym-led and single-letter names, lower_snake "
+                "fields, UPPER_SNAKE constants / members), nesting depth <= 4, each file x {c, c -O, go, go -O, py} x {with, without c.name_prefix}; "
+                "distinct by (language, declared-name counts, prefix)",
+        "assumptions": ["snake_case (regular-expression cascade) is not modelled: size-constant, enum-member and Go field names are tied by correspondence only",
+                        "style-guide names are letters-only here (digits in names change the snake_case splitting rules)"],
     },
     "C10": {
         "modules": ["BpModel.Props.C10"],
